@@ -128,9 +128,10 @@ def props(name, g, td, B, params):
         P("number of locations is even (pickups paired with deliveries)", nn % 2 == 0 and _shape(td, "locs", (B, nn, 2)) and _shape(td, "depot", (B, 2)))
         P("coordinates within bounds", s_and(_in(td["locs"], g.min_loc, g.max_loc), _in(td["depot"], g.min_loc, g.max_loc)))
     elif name == "mdcpdp":
-        nn, nd = g.num_loc, g.num_agents
+        nn, nd = g.num_loc, g.num_depot
         P("keys / shapes: depots first, then an even number of pickups+deliveries", nn % 2 == 0 and _shape(td, "locs", (B, nn, 2)) and "depot" in td.keys() and tuple(td["depot"].shape)[-2:] == (nd, 2))
         P("coordinates within bounds", s_and(_in(td["locs"], g.min_loc, g.max_loc), _in(td["depot"], g.min_loc, g.max_loc)))
+        P("one vehicle capacity per depot (the environment and the init embedding read the number of depots from capacity.shape[-1])", _shape(td, "capacity", (B, nd)))
         if "capacity" in td.keys():
             P("vehicle capacity within [min_capacity, max_capacity] and >= 1 (a pickup can always be loaded)", all_([s_and(ge(x, max(1, g.min_capacity)), le(x, g.max_capacity)) for x in _vals(td["capacity"])]))
     elif name == "mtsp":
